@@ -143,6 +143,8 @@ def resolve_select(function_body, params: Dict, mappings: Dict[str, Dict], condi
     resolved_index = int(resolve(index, params, mappings, conditions))
     resolved_list = resolve(list_values, params, mappings, conditions)
     try:
+        if resolved_index < 0:
+            raise IndexError(resolved_index)
         return resolved_list[resolved_index]
     except IndexError:
         # In some scenarios, pycfmodel can't resolve some references within resources
